@@ -55,11 +55,21 @@ def _price(ctx, name, region, sa, sb):
     return ctx.int_(name, sb + 1, MAX_SQRT) if sb < MAX_SQRT else None
 
 
+def _bounds_ok(ctx, ta, tb):
+    """the liquidity math takes its range bounds from get_sqrt_ratio_at_tick: the closed forms are stated for the protocol's sqrt
+    prices of the two ticks, so the two bounds used here are first held against C06's tolerance (exact rational enclosure)"""
+    from demeter.uniswap.liquitidy_math import get_sqrt_ratio_at_tick
+    from .c06 import _property_tolerance_ok
+
+    ctx.check("the range bounds are the protocol's sqrt prices of the two ticks (C06 tolerance, evaluated on this pair)", _property_tolerance_ok(get_sqrt_ratio_at_tick, ta) and _property_tolerance_ok(get_sqrt_ratio_at_tick, tb))
+
+
 def mint(ctx):
     """get_liquidity then get_amounts at the same price"""
     from demeter.uniswap.liquitidy_math import get_liquidity, get_amounts, get_sqrt_ratio_at_tick
 
     ta, tb, d0, d1, region = ctx.p["ta"], ctx.p["tb"], ctx.p["d0"], ctx.p["d1"], ctx.p["region"]
+    _bounds_ok(ctx, ta, tb)
     sa, sb = get_sqrt_ratio_at_tick(ta), get_sqrt_ratio_at_tick(tb)
     s = _price(ctx, "sqrt_price_x96", region, sa, sb)
     if s is None:
